@@ -352,6 +352,14 @@ class Builder:
                 other.add(sig)
                 self._keep = getattr(self, "_keep", []) + [other]
             return sig
+        if t == "child_slice":
+            # the very Slice object a sub-module uses of one of ITS signals, handed to this (ancestor) module's connection as well
+            child = self.module(e[1])
+            sig = child.add(h.Signal(name="zz_cs", width=e[2] + 1))
+            sl = sig[0:e[2]]
+            ZH = h.ExternalModule(name="ZH%d" % e[2], port_list=[h.Inout(name="a", width=e[2])], domain="verif")
+            child.add(ZH()(a=sl), name="zz_user")
+            return sl
         if t in ("evicted", "pref_evicted"):
             # an object that WAS this module's, until its name was given to something else: it is nobody's now
             mod = ctx["mod"]
